@@ -4,7 +4,7 @@
      {"c": n, "mode": "blocking"|"nonblocking", "echo": bool, "pre": "none"|"poll"|"pollpush", "push": payload,
       "ev": [event, ...]}
    with the events in the order in which they were appended to the connection's log (one mutex):
-     hs      key/haskey, status, accept (from the 101 answer), want (Base64(SHA-1(key ++ GUID)),
+     hs      key/haskey, hsv (spelling of the request), status, accept (from the 101 answer), want (Base64(SHA-1(key ++ GUID)),
              computed by an independent implementation in the harness)
      cframe  the client is about to write a frame (op, fin, pay, cuts) - logged BEFORE its first piece
      cpiece  the client is about to write the next piece, up to stream offset `upto`
@@ -59,8 +59,8 @@ Logged ==
   /\ l <= Len(Ev)
   /\ l' = l + 1 /\ UNCHANGED case
   /\ IF E.e = "hs" THEN
-          /\ Cli_Handshake(IF E.haskey THEN E.key ELSE NoKey)
-          /\ IF E.haskey THEN E.status = 101 /\ E.accept = accept' ELSE E.status # 101
+          /\ Cli_Handshake(IF E.haskey THEN E.key ELSE NoKey, E.hsv)
+          /\ IF E.status = 101 THEN hs' = "open" /\ E.accept = accept' ELSE hs' = "refused"
      ELSE IF E.e = "cframe" THEN Cli_StartFrame([op |-> E.op, fin |-> E.fin, pay |-> E.pay], ToSet(E.cuts))
      ELSE IF E.e = "cpiece" THEN Cli_Piece /\ sentB' = E.upto
      ELSE IF E.e = "cshut" THEN Cli_Shut
